@@ -274,7 +274,7 @@ fn sanitize(s: &str) -> String {
 
 fn repo_head() -> String {
     std::process::Command::new("git")
-        .args(["-C", "/repo", "rev-parse", "--short", "HEAD"])
+        .args(["-C", &std::env::var("IPT_REPO_DIR").unwrap_or_else(|_| "/repo".to_string()), "rev-parse", "--short", "HEAD"])
         .output()
         .ok()
         .map(|o| String::from_utf8_lossy(&o.stdout).trim().to_string())
@@ -284,7 +284,7 @@ fn repo_head() -> String {
 /// KNOWN_FINDINGS.txt: `known: property=<id> key=<key-prefix> <text>`; `fixed:` lines suppress nothing.
 pub fn load_known(id: &str) -> Vec<Known> {
     let mut out = vec![];
-    if let Ok(s) = std::fs::read_to_string(format!("{}/KNOWN_FINDINGS.txt", verif_dir())) {
+    if let Ok(s) = std::fs::read_to_string(std::env::var("IPT_KNOWN_FILE").unwrap_or_else(|_| format!("{}/KNOWN_FINDINGS.txt", verif_dir()))) {
         for line in s.lines() {
             let line = line.trim();
             if let Some(rest) = line.strip_prefix("known:") {
